@@ -4,6 +4,7 @@ import (
 	"fmt"
 	"go/token"
 	"go/types"
+	"strings"
 
 	"golang.org/x/tools/go/ssa"
 )
@@ -97,6 +98,82 @@ func runC03(w *World, r *Report) {
 	computedTasksKept(w, r, "C03.computed-tasks-kept")
 	r.Rule("C03.resolved-once", "every batch of completed tasks is resolved exactly once: by calculateNextTasks or by the sub-graph/rerun interrupt handler, never both, never neither (shared with C05)", 3)
 	completedOnce(w, r, "C03.resolved-once")
+
+	// ---- every successor a completed task leads to is told about it, whatever the other tasks of the batch reported
+	r.Rule("C03.dependency-recorded", "resolveCompletedTasks records the dependency (successor <- completed node) for every control successor and every branch-selected successor unconditionally: no test on what other tasks of the batch already recorded", 2)
+	{
+		rct := w.Fn("compose", "runner.resolveCompletedTasks")
+		var depMap ssa.Value
+		instrs(rct, func(in ssa.Instruction) {
+			if ret, ok := in.(*ssa.Return); ok && len(ret.Results) == 3 {
+				if mm, ok := ret.Results[1].(*ssa.MakeMap); ok {
+					depMap = mm
+				}
+			}
+		})
+		n := 0
+		loopCond := guardIsLoopCond(rct)
+		instrs(rct, func(in ssa.Instruction) {
+			mu, ok := in.(*ssa.MapUpdate)
+			if !ok || depMap == nil || mu.Map != depMap {
+				return
+			}
+			n++
+			extra := extraGuards(mu.Block(), loopCond, guardErrNil)
+			r.Check(len(extra) == 0, "C03.dependency-recorded", fmt.Sprintf("resolveCompletedTasks: dependency write #%d", n), mu.Pos(), "reached on every iteration of the successor loop", "the dependency is recorded only when "+strings.Join(extra, " && ")+": whether a join node learns that this predecessor finished depends on which task of the batch was resolved first — collected in the other order the node never becomes ready and the run ends with 'no tasks to execute'")
+		})
+		if n < 2 {
+			r.Fail("C03.dependency-recorded", "resolveCompletedTasks: dependency writes", rct.Pos(), fmt.Sprintf("%d writes into the returned dependency map found (control successors + branch-selected successors expected)", n))
+		}
+	}
+
+	// ---- submit: no node of the step is started before every pre-handler of the step has run (a failing pre-handler
+	// returns from submit: nothing may be running then; a pre-handler must not observe sibling nodes of its own step)
+	r.Rule("C03.launch-after-prehandlers", "taskManager.submit: no path leads from a task launch (go executor / inline executor) to a pre-processor call or to an error return", 2)
+	{
+		sub := w.Fn("compose", "taskManager.submit")
+		ex := w.Fn("compose", "taskManager.executor")
+		fPre := w.Field("compose", "chanCall", "preProcessor")
+		isPreCall := func(in ssa.Instruction) bool {
+			c, ok := in.(ssa.CallInstruction)
+			if !ok {
+				return false
+			}
+			if _, isGo := in.(*ssa.Go); isGo {
+				return false
+			}
+			for _, a := range c.Common().Args {
+				if isLoadOfField(a, fPre) {
+					return true
+				}
+			}
+			return false
+		}
+		isErrReturn := func(in ssa.Instruction) bool {
+			ret, ok := in.(*ssa.Return)
+			return ok && len(ret.Results) == 1 && !isNilConst(ret.Results[0])
+		}
+		n, nPre := 0, 0
+		instrs(sub, func(in ssa.Instruction) {
+			if isPreCall(in) {
+				nPre++
+			}
+			c, ok := in.(ssa.CallInstruction)
+			if !ok || staticCallee(c) == nil || origin(staticCallee(c)) != ex {
+				return
+			}
+			n++
+			kind := "inline"
+			if _, isGo := in.(*ssa.Go); isGo {
+				kind = "go"
+			}
+			bad, wit := pathQuery{fn: sub, from: in, goal: func(x ssa.Instruction) bool { return x != in && (isPreCall(x) || isErrReturn(x)) }}.exists()
+			r.Check(!bad, "C03.launch-after-prehandlers", fmt.Sprintf("submit: %s launch #%d", kind, n), in.Pos(), "every pre-processor call and every error return lies before the launch", "after this launch submit can still run a pre-handler or return an error ("+wit+"): a node of the step is already executing while a sibling's pre-handler runs (its input depends on timing), and when that pre-handler fails the run returns while started nodes are never collected")
+		})
+		if n < 2 || nPre < 1 {
+			r.Fail("C03.launch-after-prehandlers", "submit: launches and pre-processor calls", sub.Pos(), fmt.Sprintf("%d executor launches / %d pre-processor calls found (floor 2 / 1)", n, nPre))
+		}
+	}
 
 	// ---- visits-all: every submitted / completed task and every target channel is processed
 	r.Rule("C03.visits-all", "the loops over tasks, completed tasks, written channels and ready channels in the scheduler are left only when exhausted or with an error", 8)
